@@ -3,4 +3,8 @@ import ChiaModel.Props.C09
 #print axioms ChiaModel.C09.removals_spec
 #print axioms ChiaModel.C09.additions_spec
 #print axioms ChiaModel.C09.lookup_spec
+#print axioms ChiaModel.C09.coinspends_rebuild
+#print axioms ChiaModel.C09.coinspends_rebuild_reversed
+#print axioms ChiaModel.C09.bundle_additions
+#print axioms ChiaModel.C09.bundle_additions_of_limit
 #print axioms ChiaModel.C02.native_invariants
